@@ -251,6 +251,32 @@ def run_case(acc, cseed, tmpdir, state):
     if pub_hex in state["pubs"]:
         acc.violation("one-time-key-reused-between-runs", {"pub": pub_hex[:40]}, case)
     state["pubs"].add(pub_hex)
+    # a second signing run over the same files, in the same place (the .sig and public key
+    # files of the first run are still there): everything on disk afterwards belongs to
+    # the second run's key
+    if rng.random() < 0.5:
+        sub = images if rng.random() < 0.6 else images[:max(1, len(images) - 1)]
+        code, out = run_main(signonetime.main,
+                             ["signonetime.py", "-a", ",".join(im[0] for im in sub), "-p", pubp])
+        acc.count("repeated_signing_runs")
+        if code != 0:
+            acc.violation("signonetime-failed:repeated-run", {"code": code, "out": out[-300:]},
+                          case)
+            return
+        pub2 = open(pubp).read().strip()
+        if pub2 == pub_hex:
+            acc.violation("one-time-key-reused-between-runs", {"pub": pub2[:40]}, case)
+        state["pubs"].add(pub2)
+        for (p, areas, want) in sub:
+            acc.count("signatures_verified")
+            try:
+                sig = bytes.fromhex(open(p + ".sig").read().strip())
+            except Exception as e:
+                acc.violation("signature-file-unreadable", {"exc": repr(e)}, case)
+                continue
+            if not verify_der(pub2, sig, want):
+                acc.violation("signature-does-not-verify-under-the-key-written-alongside:"
+                              "repeated-run", {"image": os.path.basename(p)}, case)
     if len(acc.samples) < 2:
         acc.sample({"images": [{"file": os.path.basename(p),
                                 "areas": [(hex(s), len(dd)) for s, dd in ar],
